@@ -79,7 +79,7 @@ PROPS = {
         level_text="Proof for the modelled code: the only panic the read path can produce is the documented one at the 1000th call on a failed connection; header reads and frame skips are bounded by what is asked for / present and end with an error on a short stream (no waiting for a claimed length); the models of the reader loops and of the header parsers are total functions whose recursion is bounded by the input length (accepted by Lean's termination checker). Go-level panics cannot arise in the model: they are covered by the regenerated inventory of every index / slice / make / type-assertion site in the functions fed by network input (a new or changed site breaks the tie) and by fuzz correspondence: mutated and random frame streams into connections of both roles with the model predicting every outcome exactly, random and mutated replies to Dial and to CONNECT, junk header values through the exported helpers, all under recover(), a watchdog and a TotalAlloc bound.",
         level_note="Partial: robustness of net/http, net/url, bufio, compress/flate and encoding/base64 internals is assumed; allocation is bounded by measurement in the fuzz streams plus the make-site inventory, not by a theorem about the Go allocator. Fuzzing supports the tie and the search for failing inputs; it is not the proof.",
         lean=["WS.Props.C07"],
-        streams=[("rfuzz", 1200, 30000), ("dfuzz", 150, 3000), ("unit", 400, 8000), ("srv", 300, 6000)],
+        streams=[("rfuzz", 1200, 30000), ("dfuzz", 200, 4000), ("unit", 400, 8000), ("srv", 300, 6000), ("cli", 300, 6000)],
     ),
     "C08": P(
         technique="Lean 4 theorems over the reader+writer model + differential correspondence",
@@ -180,7 +180,7 @@ PROPS = {
         level_text="Proof: for every program (invalid requests, abandoned writers) and every transport fault script on a pooled connection — without compression unconditionally (pool_balance), with permessage-deflate negotiated for every execution whose compress/flate answers are consistent (pool_balance_compression; consistency is checked on every correspondence run) — Get/Put are balanced, a buffer is held only while a message writer is live, at most one writer is live, nothing is held between messages and no nil buffer is ever put back. Tie: instrumented LIFO pool shared by 1-4 connections that poisons buffers on Put and checks the poison on Get; Get/Put log (with buffer identities) compared with the model exactly; wire of every sharing connection judged by the RFC decoder.",
         level_note="Independent oracle in the streams: after every API call the pool's outstanding buffers (Get calls minus Put calls) equal the number of messages in progress. Concurrent sharing relies on the pool's own synchronisation (sync.Pool); the conc stream runs it under the race detector.",
         lean=["WS.Props.C20"],
-        streams=[("w", 600, 10000), ("wfault", 400, 8000), ("conc", 60, 1000)],
+        streams=[("w", 600, 10000), ("wfault", 400, 8000), ("wclose", 300, 6000), ("conc", 60, 1000)],
         race=[("conc", 300)],
         assumptions=[ASSUME_FLATE],
     ),
